@@ -22,7 +22,13 @@ RULE = (
     "trip; serialize_into() on a buffer that already holds bytes (3 junk bytes / a previous frame) appends exactly the "
     "frame; a stream of [init message +] the frame twice + a probe frame fed to the reader of a real ServerConnection / "
     "PeerConnection (plain; peer frames obfuscated; distributed connection accepted obfuscated whose init message is "
-    "obfuscated and whose later frames are plain) is delivered as exactly those three messages. Non-trivial = payload non-empty and not all zero bytes (message cases) or payload longer than 4 bytes "
+    "obfuscated and whose later frames are plain) is delivered as exactly those three messages; second use of the same "
+    "message OBJECT: serialize() again gives the same bytes, and after the object was changed - every list-valued field in "
+    "place: append(copy of its first element), reverse(), append to the first nested list of its first record, "
+    "slice-assign the list of a second value, clear(); the same append on an object that came out of deserialize(); "
+    "finally every field set to a second in-domain value of the class (a boundary document, or 'alt' of the case) - "
+    "every serialize() gives the reference encoding of the value the object holds at that moment (and the bytes of a "
+    "freshly constructed equal message). Non-trivial = payload non-empty and not all zero bytes (message cases) or payload longer than 4 bytes "
     "(obfuscation cases); distinct = distinct case document. (c) raw frames: the 299 hand-written vectors through the "
     "metamorphic oracle 'if the bytes decode to m then decode(encode(m)) == m and encode(decode(encode(m))) == encode(m)'; "
     "thorough additionally runs atheris (libFuzzer, coverage-guided) on each of the five dispatchers with that oracle, "
@@ -281,6 +287,146 @@ def _values_in_domain(key, values) -> bool:
     return True
 
 
+def _same_frame(m, key, frame: bytes, values) -> bool:
+    """Is ``frame`` what the pinned layout prescribes for ``values``? (compressed: header fields + inflated payload)"""
+    import struct
+    if not m['compressed']:
+        return frame == wire_ref.encode(key, values)
+    hdr = 4 + m['code_width']
+    if len(frame) < hdr or struct.unpack_from('<I', frame, 0)[0] != len(frame) - 4 or \
+            frame[4:hdr] != wire_ref.encode_code(key):
+        return False
+    try:
+        return zlib.decompress(frame[hdr:]) == wire_ref.encode_payload(key, values)
+    except zlib.error:
+        return False
+
+
+_ALT_CACHE: dict = {}
+
+
+def _second_use(res: CaseResult, key, values, alt):
+    """A message object is serialised, changed, and serialised again (an application keeps its browse / search reply
+    around and a scan adds a file; a request is retried with another ticket): every serialize() has to give the bytes
+    of the value the object holds at that moment. Changes: for every list-valued field in place append(copy of the
+    first element), reverse(), append to the first nested list of the first record, slice-assign the list of a second
+    value, clear(); then every field is set to the second value (lists in place)."""
+    import copy
+    m = wire_ref.BY_KEY[key]
+    fields = m['fields']
+    step = 'first'
+    try:
+        obj = msgbridge.to_obj(key, values)
+        first = obj.serialize()
+        if not _same_frame(m, key, first, values):
+            return      # (reported by the checks above)
+        step = 'again'
+        if obj.serialize() != first:
+            res.violate(f'C01/second-serialize:not-idempotent:{key}', 'serialize() of an unchanged object differs')
+            return
+        cur = copy.deepcopy(values)
+        alt_obj = msgbridge.to_obj(key, alt) if alt is not None else None
+
+        def check(what, cls, fresh_too=False):
+            again = obj.serialize()
+            if not _same_frame(m, key, again, cur):
+                if again == first:
+                    res.violate(f'C01/second-serialize:stale-after-{cls}:{key}',
+                                f'{what}: serialize() of the changed object gives the bytes of the value before the '
+                                f'change: {again.hex()[:120]} for {cur}')
+                else:
+                    res.violate(f'C01/second-serialize:differs-from-layout-after-{cls}:{key}',
+                                f'{what}: serialize() of the changed object gives {again.hex()[:120]} for {cur}')
+                return False
+            if fresh_too and not m['compressed'] and again != msgbridge.to_obj(key, cur).serialize():
+                res.violate(f'C01/second-serialize:differs-from-equal-fresh-object:{key}', what)
+                return False
+            return True
+
+        for f in fields:
+            name = f['name']
+            if f['type'] != 'array' or not isinstance(cur.get(name), list):
+                continue
+            live = getattr(obj, name)
+            if not isinstance(live, list):
+                continue
+            doc = cur[name]
+            ops = []
+            if doc:
+                ops.append('append-copy')
+            if len(doc) > 1:
+                ops.append('reverse')
+            sub = None
+            if doc and f.get('subtype', '').startswith('record:'):
+                sub = next((sf['name'] for sf in wire_ref.RECORDS[f['subtype'][7:]] if sf['type'] == 'array'), None)
+                if sub is not None:
+                    ops.append('nested')
+            if alt is not None and isinstance(alt.get(name), list) and isinstance(getattr(alt_obj, name), list):
+                ops.append('slice-assign')
+            ops.append('clear')
+            for op in ops:
+                step = f'{name}.{op}'
+                if op == 'append-copy':
+                    live.append(copy.deepcopy(live[0]))
+                    doc.append(copy.deepcopy(doc[0]))
+                elif op == 'reverse':
+                    live.reverse()
+                    doc.reverse()
+                elif op == 'nested':
+                    inner_live, inner_doc = getattr(live[0], sub), doc[0][sub]
+                    if inner_doc:
+                        inner_live.append(copy.deepcopy(inner_live[0]))
+                        inner_doc.append(copy.deepcopy(inner_doc[0]))
+                    else:
+                        continue
+                elif op == 'slice-assign':
+                    live[:] = copy.deepcopy(getattr(alt_obj, name))
+                    doc[:] = copy.deepcopy(alt[name])
+                else:
+                    if not doc:
+                        continue
+                    live.clear()
+                    doc.clear()
+                if not check(f'after {name}.{op}() in place', 'inplace-list-change', fresh_too=op == 'append-copy'):
+                    return
+                res.label('second-use:list-in-place')
+        # the same on an object that came out of deserialize(): it must not keep answering with the bytes it was
+        # parsed from
+        step = 'deserialized'
+        back = msgbridge.msg_class(key).deserialize(0, first)
+        bvals = copy.deepcopy(expected_after_roundtrip(key, values))
+        if _same_frame(m, key, back.serialize(), bvals):
+            for f in fields:
+                name = f['name']
+                live = getattr(back, name)
+                if f['type'] == 'array' and isinstance(bvals.get(name), list) and bvals[name] and isinstance(live, list):
+                    step = f'deserialized.{name}.append'
+                    live.append(copy.deepcopy(live[0]))
+                    bvals[name].append(copy.deepcopy(bvals[name][0]))
+                    if not _same_frame(m, key, back.serialize(), bvals):
+                        res.violate(f'C01/second-serialize:stale-after-inplace-list-change:deserialized:{key}',
+                                    f'deserialized object after {name}.append() in place: serialize() does not give '
+                                    f'the bytes of {bvals}')
+                        return
+                    res.label('second-use:deserialized-list-in-place')
+                    break
+        if alt is not None:
+            step = 'assign'
+            for f in fields:
+                name = f['name']
+                new = getattr(alt_obj, name)
+                live = getattr(obj, name)
+                if isinstance(new, list) and isinstance(live, list):
+                    live[:] = new
+                else:
+                    setattr(obj, name, new)
+            cur = copy.deepcopy(alt)
+            check('after every field was set to a second value', 'assignment', fresh_too=True)
+            res.label('second-use:assigned')
+    except Exception as exc:
+        res.violate(f'C01/second-serialize:raises:{key}:{type(exc).__name__}', f'{step}: {exc!r}')
+
+
 def run_msg_case(case, res: CaseResult):
     import struct
     key, values = case['key'], case['values']
@@ -409,6 +555,20 @@ def run_msg_case(case, res: CaseResult):
                 if _norm_fields(fields, got) != want:
                     res.violate(f'C01/stream-value:{key}:{mode}', f'{got} != {want}')
             res.label('stream:' + mode)
+    # (10) second use of the same message object: serialize() again, then after the object was changed
+    # (the second value: 'alt' of the document if it has one, else one of the four boundary documents of the class,
+    # picked by the size of the first value)
+    alt = case.get('alt')
+    if not _values_in_domain(key, alt):
+        if key not in _ALT_CACHE:
+            _ALT_CACHE[key] = [b['values'] for b in _boundary_cases(key)]
+        alts = _ALT_CACHE[key]
+        alt = alts[(len(data) + len(values)) % len(alts)]
+        if alt == values:
+            alt = alts[(len(data) + len(values) + 1) % len(alts)]
+        if not _values_in_domain(key, alt):
+            alt = None
+    _second_use(res, key, values, alt)
     res.nontrivial = len(ref_payload) > 0 and any(ref_payload)
     if any(v is None for v in values.values()):
         res.label('has-absent-field')
@@ -1315,16 +1475,17 @@ def run_shard(ctx):
     per_class = 150 if ctx.tier == 'quick' else 3000
     n_obf = 600 if ctx.tier == 'quick' else 20000
     mine = [k for i, k in enumerate(KEYS) if i % ctx.nshards == ctx.shard]
+    # the small deterministic parts first: they are never the ones skipped when a loaded machine eats the budget
     for key in mine:
         for case in _boundary_cases(key):
             ctx.run(case)
+    ctx.enumerate(_wire_grid())
+    _replay_vectors_raw(ctx)
+    ctx.explore(wire_case(), 20 if ctx.tier == 'quick' else 600, salt=7777)
     for i, key in enumerate(mine):
         ctx.explore(message_case(key), per_class, salt=i)
     ctx.explore(obf_case(), n_obf, salt=9999)
     ctx.extra['classes_covered'] = len(mine)
-    ctx.enumerate(_wire_grid())
-    ctx.explore(wire_case(), 20 if ctx.tier == 'quick' else 600, salt=7777)
-    _replay_vectors_raw(ctx)
     if ctx.tier == 'thorough' and ctx.shard < len(FUZZ_TARGETS):
         _fuzz_tier(ctx)
 
